@@ -852,3 +852,63 @@ def oracle(c, impl):
                                 f'{gshift[ax]!r} for its tilt elements')
         return None
     return None
+
+
+# ------------------------------------------------------------------ labelled tests outside the case protocol
+def extra(tier, rng):
+    """(1) the model's OPD ramp (the one the theorems speak about) equals the ramp this harness feeds to lentil as the
+    'OPD representation'; (2) observation only, never a verdict: how often the window the model computes for a
+    tilted field equals the window propagate_dft evaluated (the window is not pinned by the property)."""
+    lentil = C.import_lentil()
+    binp = C.build_model(MODEL)
+    report, viol = {}, []
+    # (1)
+    encs, exps = [], []
+    for _ in range(10 if tier == 'quick' else 40):
+        m, n = rng.randint(1, 7), rng.randint(1, 7)
+        a, b = rq(rng, (1, 2, 4, 8)), rq(rng, (1, 2, 4, 8))
+        dx = [rng.choice(DX_ANY), rng.choice(DX_ANY)]
+        encs.append([4] + C.enc_q(a) + C.enc_q(b) + enc_f(dx[0]) + enc_f(dx[1]) + [m, n])
+        exps.append(ramp(m, n, float(a), float(b), dx))
+    bad = 0
+    for ints, exp in zip(C.run_model(binp, encs), exps):
+        rd = C.Reader(ints)
+        assert rd.z() == 0
+        got = np.array([[float(v) for v in row] for row in rd.arr(rd.q)])
+        if got.shape != exp.shape or np.max(np.abs(got - exp)) > 1e-12 * (1 + np.max(np.abs(exp))):
+            bad += 1
+    report['ramp_cases'] = len(encs)
+    report['ramp_disagreements'] = bad
+    if bad:
+        viol.append({'case': None, 'impl': None, 'what': 'harness OPD ramp differs from the model\'s opd_ramp (harness/model inconsistency)'})
+    # (2)
+    encs, obs = [], []
+    for _ in range(40 if tier == 'quick' else 300):
+        shape = (rng.randint(2, 7), rng.randint(2, 7))
+        ps = None if rng.random() < 0.4 else (rng.randint(1, shape[0]), rng.randint(1, shape[1]))
+        os_ = rng.choice([1, 2, 3])
+        du = (fl(rng.choice(PS_ANY)), fl(rng.choice(PS_ANY)))
+        z = 8.0
+        span = max(shape) * os_
+        a = float(rnd_px(rng, span)) * du[0] / (z * os_)
+        b = -float(rnd_px(rng, span)) * du[1] / (z * os_)
+        w = lentil.Wavefront(1.0) * lentil.Pupil(amplitude=np.ones((3, 3)), pixelscale=0.25, focal_length=z) * lentil.Tilt(x=a, y=b)
+        s = w.data[0].shift(z=z, wavelength=1.0, pixelscale=du, oversample=os_)
+        out = lentil.propagate_dft(w, pixelscale=du, shape=shape, prop_shape=ps, oversample=os_)
+        got = None if not out.data else [int(out.data[0].shape[0]), int(out.data[0].shape[1]),
+                                         int(out.data[0].offset[0]), int(out.data[0].offset[1])]
+        S0, S1 = shape[0] * os_, shape[1] * os_
+        P = shape if ps is None else ps
+        oe = [-(S0 // 2), -(S0 // 2) + S0 - 1, -(S1 // 2), -(S1 // 2) + S1 - 1]
+        encs.append([5] + oe + [P[0] * os_, P[1] * os_] + C.enc_q(float(s[0])) + C.enc_q(float(s[1])))
+        obs.append(got)
+    agree = 0
+    for ints, got in zip(C.run_model(binp, encs), obs):
+        rd = C.Reader(ints)
+        assert rd.z() == 0
+        mw = rd.opt(lambda: [rd.z(), rd.z(), rd.z(), rd.z()])
+        agree += (mw == got)
+    report['window_cases'] = len(encs)
+    report['window_model_equals_implementation'] = agree
+    report['window_note'] = 'observation only: the evaluated window of a tilted field is not pinned by C04'
+    return {'report': report, 'violations': viol}
